@@ -257,7 +257,9 @@ pub fn programs(thorough: bool) -> Vec<Value> {
     }
   }
   // (2) single mappings: modifiers x outputs x repeat forms x absorbing forms, with neighbours
-  let modsets: Vec<Value> = vec![json!([]), json!(["@a"]), json!(["CAPSLOCK"]), json!(["@a", "CAPSLOCK"]), json!(["@a", "@b"]), json!(["@b", "TAB", "@a"]), json!(["TAB", "@a", "F16"]), json!(["@a", "@b", "@c"]), json!(["@c", "@a", "F16", "@b"])];
+  let modsets: Vec<Value> = vec![json!([]), json!(["@a"]), json!(["CAPSLOCK"]), json!(["@a", "CAPSLOCK"]), json!(["@a", "@b"]), json!(["@b", "TAB", "@a"]), json!(["TAB", "@a", "F16"]), json!(["@a", "@b", "@c"]), json!(["@c", "@a", "F16", "@b"]),
+    // a plain key BEFORE the aliases (position in the trigger != ordinal among the aliases), two and three aliases after it
+    json!(["TAB", "@a", "@b"]), json!(["F16", "@b", "@a"]), json!(["TAB", "@a", "F16", "@b"]), json!(["TAB", "F16", "@c", "@b", "@a"])];
   let tos: Vec<Value> = vec![json!([]), json!("X"), json!(["X"]), json!(["@a", "X"]), json!(["LEFTCTRL", "@a", "X"]), json!(["@b", "@a", "X"]), json!(["@c", "@a", "X"])];
   let repeats: Vec<Option<Value>> = vec![None, Some(json!("Disabled")), Some(json!("disabled")), Some(json!("Normal")), Some(json!({"Special": {"keys": "F21", "delay_ms": 180, "interval_ms": 30}})), Some(json!({"Special": {"keys": ["@a", "F21"], "delay_ms": 1, "interval_ms": 2}})), Some(json!({"Special": {"keys": [], "delay_ms": 1, "interval_ms": 2}}))];
   let absorbs: Vec<Option<Value>> = vec![None, Some(json!("@a")), Some(json!(["@a"])), Some(json!(["CAPSLOCK"])), Some(json!([]))];
@@ -335,7 +337,15 @@ pub fn run(ctx: &Ctx) -> Outcome {
     let mut reports: Vec<(&'static str, String)> = vec![];
     let mut rep = |c: &'static str, d: String| reports.push((c, d));
     match r {
-      Err(_) => rep("loader-panicked", "the loader panicked on this program (C14's subject; listed here because the program could not be compared)".to_string()),
+      Err(_) => {
+        rep("loader-panicked", "the loader panicked on this program (C14's subject; listed here because the program could not be compared)".to_string());
+        // ... and C13's too when the hand-written expansion of the same program loads: the shorthand then does not "convert to
+        // the same basic mappings as the layout with every shorthand written out by hand" - it does not convert at all
+        let expansion_loads = std::panic::catch_unwind(std::panic::AssertUnwindSafe(|| match ref_expand(p) {
+          Some((groups, ids)) if ids.first().and_then(|v| v.as_str()) != Some("ambiguous") => groups.iter().all(|g| real_load(&json!({ "mappings": g })).is_ok()) && real_load(&json!({ "mappings": ids })).is_ok(),
+          _ => false })).unwrap_or(false);
+        if expansion_loads { rep("shorthand-panics-where-its-expansion-loads", format!("the loader panics on the shorthand program {} although its hand-written expansion loads", p)); }
+      }
       Ok(Ok(None)) => acc.rejected += 1,
       Ok(Ok(Some(n))) => {
         acc.compared += 1; acc.mappings += n as u64;
@@ -361,7 +371,7 @@ pub fn run(ctx: &Ctx) -> Outcome {
   o.cov("basic_mappings_compared", acc.mappings);
   o.cov("respelled_variants_compared", acc.variants);
   o.cov("exhaustive", true);
-  o.cov("rule", "programs enumerated from a grammar: 8 alias set-ups (one or several keys, several definitions per alias, extra output keys) x (1) every row spelling x every position 0..13 x every printable ASCII character (plus non-ASCII/control characters that must be rejected), (2) single mappings over 7 modifier lists x 6 output forms x 7 repeat forms x 5 absorbing forms x 4 neighbour contexts incl. repeat-only entries, (3) whole-row mappings with output modifiers, row repeats and absorbing, (4) every ordered tuple of source mappings from a 12-entry menu (order and repeat-only pass; tuples of 1..2 quick, 1..4 thorough and 1..5 under the first two alias set-ups), plus the built-in layouts. Oracle: real(P) vs real(hand-written expansion by the reference expander), groups in source order, multiset within a group; respelled variants must convert identically. distinct_nontrivial = programs (distinct by construction) the loader accepted and that reached the comparison.".to_string());
+  o.cov("rule", "programs enumerated from a grammar: 8 alias set-ups (one or several keys, several definitions per alias, extra output keys) x (1) every row spelling x every position 0..13 x every printable ASCII character (plus non-ASCII/control characters that must be rejected), (2) single mappings over 13 modifier lists (aliases first, between and after plain keys) x 7 output forms x 7 repeat forms x 5 absorbing forms x 4 neighbour contexts incl. repeat-only entries, (3) whole-row mappings with output modifiers, row repeats and absorbing, (4) every ordered tuple of source mappings from a 12-entry menu (order and repeat-only pass; tuples of 1..2 quick, 1..4 thorough and 1..5 under the first two alias set-ups), plus the built-in layouts. Oracle: real(P) vs real(hand-written expansion by the reference expander), groups in source order, multiset within a group; respelled variants must convert identically. distinct_nontrivial = programs (distinct by construction) the loader accepted and that reached the comparison.".to_string());
   let si = ps.len() / 3;
   o.cov("samples", json!([{"program": ps[si], "reference_expansion": ref_expand(&ps[si]).map(|(g, i)| json!({"groups": g, "identities": i}))}]));
   o.assumptions = vec!["the reference expander's US-QWERTY and row tables were typed in independently".into(), "within one source mapping's expansion only the multiset is compared (the statement fixes order only between different source mappings)".into(), "programs using the same alias twice in one trigger are compared only if the loader accepts them; the last occurrence decides output-side substitution".into()];
